@@ -8,6 +8,7 @@ package checks
 import (
 	"context"
 	"fmt"
+	"strings"
 	"testing"
 	"time"
 
@@ -22,6 +23,11 @@ type ReturnCycle struct {
 	Keys   []int `json:"keys"`   // keys written in this cycle (value and time depend on the key only)
 	Reopen bool  `json:"reopen"` // take a new handle (same cache) before writing them again
 	Other  bool  `json:"other"`  // a second handle (same cache) writes them again
+	// Fault: the deletion of history runs under a storage fault: "root-deletes" = every DELETE
+	// of a version object fails (the node objects are gone by then), "node-deletes-from" =
+	// node DELETEs fail from the FaultAt-th on
+	Fault   string `json:"fault,omitempty"`
+	FaultAt int    `json:"fault_at,omitempty"`
 }
 
 type ReturnCase struct {
@@ -36,7 +42,8 @@ func genReturnCase(t *rapid.T) ReturnCase {
 	for i := 0; i < n; i++ {
 		c.Cycles = append(c.Cycles, ReturnCycle{
 			Keys:   rapid.SliceOfNDistinct(rapid.IntRange(1, 9), 1, 6, func(k int) int { return k }).Draw(t, "keys"),
-			Reopen: rapid.Bool().Draw(t, "reopen"), Other: rapid.Bool().Draw(t, "other")})
+			Reopen: rapid.Bool().Draw(t, "reopen"), Other: rapid.Bool().Draw(t, "other"),
+			Fault: rapid.SampledFrom([]string{"", "", "root-deletes", "node-deletes-from"}).Draw(t, "fault"), FaultAt: rapid.IntRange(1, 4).Draw(t, "faultat")})
 	}
 	return c
 }
@@ -117,8 +124,31 @@ func runReturn(c ReturnCase, o *Obs) error {
 			return fmt.Errorf("%s: commit of the purge: %v", where, err)
 		}
 		nodesBefore := len(store.Keys("ret/node/"))
-		if err := kv.DeleteHistoricVersions(ctx, h, time.Unix(1<<40, 0)); err != nil {
-			return fmt.Errorf("%s: DeleteHistoricVersions: %v", where, err)
+		if cy.Fault != "" {
+			n := 0
+			store.Intercept = func(q *fakes3.Req) error {
+				if q.Op != "DELETE" {
+					return nil
+				}
+				switch {
+				case cy.Fault == "root-deletes" && strings.Contains(q.Key, "/root/"):
+					return fakes3.ErrInjected
+				case cy.Fault == "node-deletes-from" && strings.Contains(q.Key, "/node/"):
+					n++
+					if n >= cy.FaultAt {
+						return fakes3.ErrInjected
+					}
+				}
+				return nil
+			}
+		}
+		derr := kv.DeleteHistoricVersions(ctx, h, time.Unix(1<<40, 0))
+		store.Intercept = nil
+		if derr != nil && cy.Fault == "" {
+			return fmt.Errorf("%s: DeleteHistoricVersions: %v", where, derr)
+		}
+		if derr != nil {
+			o.Class("deletion-cut-short-by-fault")
 		}
 		if len(store.Keys("ret/node/")) < nodesBefore {
 			o.Class("vacuum-deleted-nodes")
@@ -184,6 +214,16 @@ func runReturn(c ReturnCase, o *Obs) error {
 func init() { register("TestC09_KVContentReturns", runReturn) }
 
 func TestC09_KVContentReturns(t *testing.T) {
-	st := newStats(t, "C09", "TestC09_KVContentReturns", "kv level, one bucket prefix, branch factor 2/4/4096, a node cache of 0/1/4/1000 entries shared by the handles (as mast documents): 1-4 cycles of: Set 1-6 keys (value and time depend on the key only), Commit, Tombstone them, Commit, RemoveTombstones, Commit, DeleteHistoricVersions with a cutoff after everything (the node objects of the first write are deleted), then Set the SAME entries again through the same handle, a new handle or a second handle, Commit; after every commit a fresh handle without cache must open the table and read exactly the committed entries; non-trivial = a cycle in which the vacuum deleted node objects while a cache was configured")
+	st := newStats(t, "C09", "TestC09_KVContentReturns", "kv level, one bucket prefix, branch factor 2/4/4096, a node cache of 0/1/4/1000 entries shared by the handles (as mast documents): 1-4 cycles of: Set 1-6 keys (value and time depend on the key only), Commit, Tombstone them, Commit, RemoveTombstones, Commit, DeleteHistoricVersions with a cutoff after everything (the node objects of the first write are deleted; in half of the cycles under a storage fault: the DELETEs of version objects fail, or node DELETEs fail from the n-th on), then Set the SAME entries again through the same handle, a new handle or a second handle, Commit; after every commit a fresh handle without cache must open the table and read exactly the committed entries; non-trivial = a cycle in which the vacuum deleted node objects while a cache was configured")
+	checkRapid(t, st, genReturnCase, runReturn)
+}
+
+// The same runner under C16 ("every object a committed version refers to exists ... a fresh
+// process with an empty cache can read the whole table"): the commits after the vacuum are
+// the ones at stake.
+func init() { register("TestC16_KVContentReturns", runReturn) }
+
+func TestC16_KVContentReturns(t *testing.T) {
+	st := newStats(t, "C16", "TestC16_KVContentReturns", "the kv-level runner of TestC09_KVContentReturns under C16: entries written, tombstoned, purged, their history deleted (in half of the cycles under a storage fault that cuts the deletion short), then the SAME entries written again through the same, a new or a second handle with a shared node cache of 0/1/4/1000 entries; after every acknowledged commit a fresh handle WITHOUT cache must open the table and read exactly the committed entries (every object the version refers to exists); non-trivial = a cycle in which node objects were deleted while a cache was configured")
 	checkRapid(t, st, genReturnCase, runReturn)
 }
